@@ -313,6 +313,19 @@ fn float_cases() -> Vec<Case> {
             }
         }
     }
+    // byte strings and texts as whole select items: the inline literal must denote the value that is bound
+    let blobs: Vec<Vec<u8>> = vec![vec![], vec![0], vec![1, 2, 0x0a], vec![0, 0x0f, 0x10, 0xff], vec![0x0a; 3], (0u8..=20).collect(), vec![0xab, 0xcd, 0xef]];
+    let texts = ["", "it's", "a\\b", "\n\t", "é😀", "x'00'"];
+    let mut items: Vec<E> = blobs.into_iter().map(|b| E::V(VS::Bytes(b))).collect();
+    items.extend(texts.iter().map(|t| E::V(VS::Str(t.to_string()))));
+    for val in items {
+        let mut s = SelectSpec::default();
+        s.items = vec![Item { e: E::QCol(0, 0), alias: None, win: None }, Item { e: val, alias: None, win: None }];
+        s.from = vec![FromSpec::Table(0, None)];
+        s.orders = vec![OrdSpec { e: E::QCol(0, 0), dir: Dir::Asc, nulls: None }];
+        s.limit = Some(2);
+        v.push(Case { stmt: Stmt::Select(s) });
+    }
     v
 }
 
